@@ -518,7 +518,19 @@ def gen_world(r, k):
     defaults = {}
     for _ in range(r.choice([0, 0, 1, 2, 3])):
         defaults[r.choice(['rone', 'both', 'nrep', 'igno', 'xval', 'jtag', 'sile', 'erro', 'rdis'])] = r.choice(['VtOrderA', 'VtOrderB', 'VtOrderC', 'vtorderb', 'Misc', 'NoSuch', ''])
+    stale = None
+    if r.random() < 0.35:
+        # a stale default: the configured default plugin no longer offers the command (disabled there, or not a
+        # loaded plugin / not having it), two other providers remain, exactly one of them important
+        c = r.choice(['rone', 'both', 'nrep'])
+        P = r.choice(['VtOrderA', 'VtOrderB', 'VtOrderC', 'NoSuch', 'Misc'])
+        defaults[c] = P
+        if P.startswith('VtOrder'):
+            dis.append('%s.%s' % (P, c))
+        stale = [x for x in ['VtOrderA', 'VtOrderB', 'VtOrderC'] if x != P]
     imp = r.choice([['Admin', 'Channel', 'Config', 'Misc', 'Owner', 'User']] * 2 + [[], ['VtOrderA'], ['VtOrderB', 'Misc'], ['vtorder_a', 'VtOrderC'], ['VtOrderA', 'VtOrderB', 'VtOrderC']])
+    if stale is not None and r.random() < 0.8:
+        imp = [r.choice(stale)] + r.choice([[], ['Misc'], ['Owner', 'Admin']])
     return dict(whenNotCommand=r.random() < 0.6, maxNesting=r.choice([10, 10, 1, 2, 3, 5]), maxLen=r.choice([131072, 131072, 131072, 40, 12, 3]),
                 detailed=r.random() < 0.3, disabled=dis, defaults=defaults, important=imp)
 
@@ -586,6 +598,20 @@ def oracle_ambiguous(live, res):
     for (p, c, a) in res['calls']:
         if len(c) == 1 and ambiguous_expected(live, c[0]):
             return False, 'the ambiguous bare name %r ran in plugin %s (args %r) instead of being reported' % (c[0], p, a)
+    return True, ''
+
+def oracle_resolvable(live, res):
+    """a bare name that the configured default plugin (when that plugin still offers it) or exactly one important
+    plugin singles out is NOT ambiguous: it must not be reported as such"""
+    out = canon_result(res)
+    if out.startswith('ambiguous\t'):
+        c = out.split('\t')[1]
+        if ' ' not in c and c == live.cb.canonicalName(c):
+            dis = live.cb.Commands._disabled
+            cands = [P for P in live.top if c in live.methods_cached(P) and not dis.disabled(c, P.name())]
+            if len(cands) >= 2 and not ambiguous_expected(live, c):
+                return False, ('the bare name %r is offered by %r; the default plugin / the important plugins single one out, '
+                               'yet it was reported as ambiguous' % (c, [P.name() for P in cands]))
     return True, ''
 
 def oracle_order(tokens, res, world):
@@ -702,6 +728,8 @@ def explore(live, r, n_worlds, per_world, corpus=()):
             ok, msg = oracle_order(tokens, res, w)
             if ok:
                 ok, msg = oracle_ambiguous(live, res)
+            if ok:
+                ok, msg = oracle_resolvable(live, res)
             if ok and check_full:
                 ok, msg = oracle_full(tokens, res, w)
             impl = cut_foreign(canon_result(res), res['calls'], '%d' % res['ignored'])
